@@ -344,6 +344,56 @@ Proof.
   - apply inflected_prefix_preserved; [exact singular_wf|exact Hirr|exact Hb].
 Qed.
 
+(* ---- which strings reach the suffix rules ---- *)
+
+(* a string that does not reach the suffix rules: the result does not depend on them *)
+Lemma inflected_suffix_independent : forall fixed tbl unf s,
+  reaches_suffix fixed tbl unf s = false ->
+  forall f g, inflected fixed tbl unf f s = inflected fixed tbl unf g s.
+Proof.
+  intros fixed tbl unf s H f g. unfold reaches_suffix in H. unfold inflected, rest.
+  destruct (irregular_match (map fst tbl) s) as [[[skipped cap1] word]|].
+  - destruct fixed; [|reflexivity].
+    destruct (lookup (go_to_lower word) tbl); [reflexivity|].
+    apply negb_false_iff in H. rewrite H. reflexivity.
+  - apply negb_false_iff in H. rewrite H. reflexivity.
+Qed.
+
+(* a string that reaches them: the result is theirs *)
+Lemma inflected_reaches_suffix : forall tbl unf s,
+  reaches_suffix true tbl unf s = true ->
+  forall f, inflected true tbl unf f s = Ok (f s).
+Proof.
+  intros tbl unf s H f. unfold reaches_suffix in H. unfold inflected, rest.
+  destruct (irregular_match (map fst tbl) s) as [[[skipped cap1] word]|].
+  - destruct (lookup (go_to_lower word) tbl); [discriminate|].
+    apply negb_true_iff in H. rewrite H. reflexivity.
+  - apply negb_true_iff in H. rewrite H. reflexivity.
+Qed.
+
+(* an irregular word after a word boundary never reaches the suffix rules ... *)
+Lemma irregular_never_reaches_suffix : forall tbl unf, table_wf tbl = true ->
+  forall p w, irregular tbl w -> at_boundary p = true -> reaches_suffix true tbl unf (p ++ w) = false.
+Proof.
+  intros tbl unf Hwf p w Hirr Hb.
+  destruct (irregular_letters tbl w Hwf Hirr) as [Hw Hne].
+  destruct (lookup_in _ tbl Hirr) as [r Hr].
+  unfold reaches_suffix.
+  rewrite (irregular_match_app (map fst tbl)
+             (fun x Hx => proj1 (table_wf_word tbl x Hwf Hx)) p w Hw Hne
+             (irregular_is_table_word tbl _ Hw Hirr) Hb).
+  rewrite (go_to_lower_letters _ Hw). rewrite Hr. reflexivity.
+Qed.
+
+(* ... and neither does a string the uninflected expression matches *)
+Lemma uninflected_never_reaches_suffix : forall fixed tbl unf s,
+  uninflected_match unf s = true -> reaches_suffix fixed tbl unf s = false.
+Proof.
+  intros fixed tbl unf s H. unfold reaches_suffix. rewrite H.
+  destruct (irregular_match (map fst tbl) s) as [[[skipped cap1] word]|]; [|reflexivity].
+  destruct fixed; [|reflexivity]. destruct (lookup (go_to_lower word) tbl); reflexivity.
+Qed.
+
 (* ---- the code before the fix ---- *)
 
 Definition id_suffix (s : bytes) : bytes := s.
